@@ -38,6 +38,8 @@ func runC06(c *core.Ctx) {
 	ruleCCITTRunBoundary(c)
 	ruleRunLengthBounds(c, "C06-R9")
 	ruleCCITTRefLine(c, "C06-R10")
+	ruleLZWEarlyChange(c)
+	ruleCCITTNoEOLInGroup4(c)
 }
 
 // ruleCCITTRunBoundary: make-up codes may add up to exactly the row width; the
@@ -912,5 +914,140 @@ func ruleCCITTRefLine(c *core.Ctx, rule string) {
 		}
 		o.Fact("%d row-producing functions, %d refresh sites", len(producers), copies)
 		o.Require(copies >= 1, "the decoder never refreshes its reference line")
+	})
+}
+
+// ruleLZWEarlyChange (C06-R2, continued): the reader's default for
+// /EarlyChange is 1.  A filter that uses EarlyChange 0 (OffByOne == false)
+// must therefore always say so in the dictionary it emits, also when the
+// dictionary already exists because a predictor is set: the entry is written
+// whenever !OffByOne holds, under no further condition.
+func ruleLZWEarlyChange(c *core.Ctx) {
+	c.Check("C06-R2", "pdf.FilterLZW.Info/EarlyChange", "/EarlyChange 0 is emitted whenever the filter does not use the early code-width change, whatever other parameters are present", func(o *core.Ob) {
+		fn := c.Prog.Func("pdf", "FilterLZW.Info")
+		g := fn.Graph()
+		info := fn.Info()
+		recv := info.Defs[fn.Decl.Recv.List[0].Names[0]]
+		var stores []*core.V
+		for _, v := range g.Vs {
+			if v.AST == nil {
+				continue
+			}
+			found := false
+			ast.Inspect(v.AST, func(m ast.Node) bool {
+				switch x := m.(type) {
+				case *ast.KeyValueExpr:
+					if s, ok := core.StringConst(info, x.Key); ok && s == "EarlyChange" {
+						found = true
+					}
+				case *ast.AssignStmt:
+					for _, l := range x.Lhs {
+						if _, key, ok := core.MapIndexKey(info, l); ok && key == "EarlyChange" {
+							found = true
+						}
+					}
+				}
+				return true
+			})
+			if found {
+				stores = append(stores, v)
+			}
+		}
+		if len(stores) == 0 {
+			o.Count(1)
+			o.Fail("FilterLZW.Info never writes /EarlyChange")
+			return
+		}
+		// the condition: a selector .OffByOne on the receiver
+		var off ast.Expr
+		ast.Inspect(fn.Decl.Body, func(m ast.Node) bool {
+			if sel, ok := m.(*ast.SelectorExpr); ok && sel.Sel.Name == "OffByOne" && core.ObjOf(info, sel.X) == recv && off == nil {
+				off = sel
+			}
+			return true
+		})
+		if off == nil {
+			core.Undecided("FilterLZW.Info does not look at OffByOne")
+		}
+		need := core.Formula{Fn: fn, Atoms: []core.Atom{{Expr: off, Neg: true}}}
+		// the entry is written on every path on which !OffByOne holds: some store's conditions follow from it,
+		// and the stores together cover it (one store suffices here)
+		okAny := false
+		var why []string
+		for _, st := range stores {
+			o.Count(1)
+			o.At(fn.Site(st.AST, "/EarlyChange written"))
+			var atoms []core.Atom
+			for _, a := range g.DominatingAtoms(st) {
+				if _, isErr := a.AsCmp(); isErr && strings.Contains(c.Prog.Src(a.Expr), "err") {
+					continue
+				}
+				atoms = append(atoms, a)
+			}
+			holds, counter, decided := c.Prog.Implies(need, core.Formula{Fn: fn, Atoms: atoms})
+			if !decided {
+				core.Undecided("condition of the store not decided: %s", counter)
+			}
+			if holds && g.GuardsSufficient(g.Entry, st, g.Exit) {
+				okAny = true
+			} else {
+				why = append(why, c.Prog.Pos(st.AST.Pos())+": written only under "+c.Prog.FormulaString(core.Formula{Atoms: atoms})+" (not for "+counter+")")
+			}
+		}
+		if !okAny {
+			o.Fail("/EarlyChange 0 is not written for every filter with OffByOne == false: %s; the rebuilt filter then uses the default EarlyChange 1 and cannot decode the data", strings.Join(why, "; "))
+		}
+	})
+}
+
+// ruleCCITTNoEOLInGroup4 (C06-R11): Group 4 (K < 0) data has no end-of-line
+// codes; the decoder takes the 12-bit EOL pattern inside a Group 4 row for
+// the end of the data.  In the encoder every emission of the EOL code
+// (000000000001, 12 bits) is dominated by conditions that imply K >= 0.
+func ruleCCITTNoEOLInGroup4(c *core.Ctx) {
+	const pk = "pdf/internal/filter/ccittfax"
+	c.Check("C06-R11", pk+".(*Writer).writeRow/eol", "end-of-line codes are written only for Group 3 rows (K >= 0)", func(o *core.Ob) {
+		fn := c.Prog.Func(pk, "(*Writer).writeRow")
+		g := fn.Graph()
+		info := fn.Info()
+		var kSel ast.Expr
+		ast.Inspect(fn.Decl.Body, func(m ast.Node) bool {
+			if sel, ok := m.(*ast.SelectorExpr); ok && sel.Sel.Name == "K" && kSel == nil {
+				kSel = sel
+			}
+			return true
+		})
+		if kSel == nil {
+			core.Undecided("writeRow does not look at K")
+		}
+		n := 0
+		for _, cv := range callVerticesSuffix(g, ".writeBits") {
+			if len(cv.Call.Args) != 2 {
+				continue
+			}
+			code, ok1 := core.IntConst(info, cv.Call.Args[0])
+			bits, ok2 := core.IntConst(info, cv.Call.Args[1])
+			if !ok1 || !ok2 || code != 1 || bits != 12 {
+				continue
+			}
+			n++
+			o.Count(1)
+			o.At(fn.Site(cv.Call, "EOL code"))
+			var atoms []core.Atom
+			for _, a := range g.DominatingAtoms(cv.V) {
+				if strings.Contains(c.Prog.Src(a.Expr), ".K") {
+					atoms = append(atoms, a)
+				}
+			}
+			want := core.Formula{Fn: fn, Atoms: []core.Atom{{Expr: &ast.BinaryExpr{X: kSel, Op: token.GEQ, Y: intLit(0)}}}}
+			holds, counter, decided := c.Prog.Implies(core.Formula{Fn: fn, Atoms: atoms}, want)
+			if !decided {
+				core.Undecided("condition of the EOL code not decided: %s", counter)
+			}
+			if !holds {
+				o.FailAt(fn.Site(cv.Call, ""), "%s: an end-of-line code is written for %s (conditions on K: %s); Group 4 data must not contain EOL codes", c.Prog.Pos(cv.Call.Pos()), counter, c.Prog.FormulaString(core.Formula{Atoms: atoms}))
+			}
+		}
+		o.Require(n >= 1, "no EOL emission found in writeRow")
 	})
 }
